@@ -472,12 +472,15 @@ func finish(c *Check, tier string, start time.Time, jobs []string, results []*Re
 		}
 		// confirm by re-running
 		repro := 0
-		const tries = 5
+		tries := 5
+		if v.Kind == "hang" {
+			tries = 2 // each replay waits for the hang timeout, in a subprocess
+		}
 		if v.Kind == "worker-died" {
 			repro = tries // confirmed in isolation by the orchestrator
 		} else if c.Replay != nil {
 			for i := 0; i < tries; i++ {
-				if rv := safeReplay(c, v.Replay); rv != nil {
+				if rv := safeReplay(c, v.Replay, v.Kind == "hang"); rv != nil {
 					repro++
 				}
 			}
@@ -560,10 +563,10 @@ func finish(c *Check, tier string, start time.Time, jobs []string, results []*Re
 	return exit
 }
 
-func safeReplay(c *Check, rp json.RawMessage) (v *Violation) {
+func safeReplay(c *Check, rp json.RawMessage, isolate bool) (v *Violation) {
 	// replays of crashing executions run in a subprocess so that a panic in a stack
 	// goroutine cannot take the orchestrator down
-	if c.Isolated {
+	if c.Isolated || isolate {
 		self, _ := os.Executable()
 		f, _ := os.CreateTemp("", "verif-replay-*.json")
 		b, _ := json.Marshal(replayFile{Property: c.ID, Replay: rp})
